@@ -12,7 +12,7 @@ import ast
 from sa.model import AnalysisError, FuncInfo
 from sa.ctx import Ctx, short, stmt_key, ENGINE_MODULES
 from sa.cfg import NORMAL, describe_path
-from sa.report import Report
+from sa.report import Report, section
 from sa.effects import Effects
 from sa.util import cfg_root, node_has_call, node_stores_attr, has_fact, fact_in
 from sa import pat
@@ -148,16 +148,16 @@ class C04:
 
 def run(ctx: Ctx, rep: Report, tier: str):
     c = C04(ctx, rep)
-    c.r1()
-    c.r2_r3()
+    section(rep, c.r1)
+    section(rep, c.r2_r3)
     rep.rule("C04.R3b", "a delete stays deleted: when the provider has no information about a tombstoned (LIKELY_TRASHED) id it is confirmed TRASHED for "
              "every provider style, nothing stores EXISTS on that arm (same queries as C14.W4)", expect_min=3)
     from rules.C14 import w4
-    w4(ctx, rep, "C04.R3b")
-    c.r4_r5()
+    section(rep, lambda: w4(ctx, rep, "C04.R3b"))
+    section(rep, c.r4_r5)
     from rules.common import kids_sync_path_rebased, refresh_marks_exists
     rep.rule("C04.R4b", "a renamed folder re-bases each child's last-synced path from the child's own old last-synced path, so a child's own pending rename stays pending", 1)
-    kids_sync_path_rebased(ctx, rep, "C04.R4b")
+    section(rep, lambda: kids_sync_path_rebased(ctx, rep, "C04.R4b"))
     from rules.common import alias
     from rules.C03 import C03
     alias(rep, ["C03.R1", "C03.R2"], "C04.R4c", "after a rename / folder creation is mirrored, both sides' last-synced paths are recorded (C03.R1): renaming the object "
@@ -166,28 +166,28 @@ def run(ctx: Ctx, rep: Report, tier: str):
     rep.rule("C04.R7", "a folder delete that finds children re-examines the children on the side where the delete happened: the kids listed for "
              "(path, side) are FORCE-synced (a plain changed mark is discarded by the needs-no-sync short-circuit) on that same side, and so is the folder", 2)
     from rules.common import dir_delete_rechecks_kids
-    dir_delete_rechecks_kids(ctx, rep, "C04.R7")
+    section(rep, lambda: dir_delete_rechecks_kids(ctx, rep, "C04.R7"))
     rep.rule("C04.R3c", "a refresh that finds the object marks it EXISTS on every path (C14.W8): a stale tombstone does not delete the peer of a live object", 1)
-    refresh_marks_exists(ctx, rep, "C04.R3c")
-    c.r6()
+    section(rep, lambda: refresh_marks_exists(ctx, rep, "C04.R3c"))
+    section(rep, c.r6)
     from rules.common import alias as _alias
     from rules.common import temp_rename_on_moved_entry
     rep.rule("C04.R8", "the engine's own move-aside (.conflicted temp rename) is never mistaken for a user rename: TEMP_RENAME is flagged on the entry "
            "whose file was moved (C03.R6), so a one-sided rename cycle ends with each object only at its new path", 2)
-    temp_rename_on_moved_entry(ctx, rep, "C04.R8")
+    section(rep, lambda: temp_rename_on_moved_entry(ctx, rep, "C04.R8"))
     from rules.common import definition_holds
     rep.rule("C04.R9", "when two renames conflict: path_conflict is true exactly for an entry that was synced, exists on both sides, whose two paths no longer correspond "
              "and BOTH of which moved away from their last-synced path (and is no engine temp rename); is_path_change / is_rename as defined; is_trash = no id on either side", 4)
-    definition_holds(ctx, rep, "C04.R9", "SyncManager.path_conflict", "a one-sided rename is treated as a two-sided conflict (split / .conflicted artefact) or a real rename conflict is not noticed")
-    definition_holds(ctx, rep, "C04.R9", "SyncEntry.is_path_change", "a rename is not propagated as a rename")
-    definition_holds(ctx, rep, "C04.R9", "SyncEntry.is_rename", "a rename is not propagated as a rename")
-    definition_holds(ctx, rep, "C04.R9", "SyncEntry.is_trash", "a live entry's row is deleted / a dead one kept")
+    section(rep, lambda: definition_holds(ctx, rep, "C04.R9", "SyncManager.path_conflict", "a one-sided rename is treated as a two-sided conflict (split / .conflicted artefact) or a real rename conflict is not noticed"))
+    section(rep, lambda: definition_holds(ctx, rep, "C04.R9", "SyncEntry.is_path_change", "a rename is not propagated as a rename"))
+    section(rep, lambda: definition_holds(ctx, rep, "C04.R9", "SyncEntry.is_rename", "a rename is not propagated as a rename"))
+    section(rep, lambda: definition_holds(ctx, rep, "C04.R9", "SyncEntry.is_trash", "a live entry's row is deleted / a dead one kept"))
     from rules.common import creation_dispatch
     rep.rule("C04.R10", "creations and renames are dispatched apart (C02.R12): a rename is propagated by handle_rename, never re-created; a creation never renames", 4)
-    creation_dispatch(ctx, rep, "C04.R10")
+    section(rep, lambda: creation_dispatch(ctx, rep, "C04.R10"))
     from rules.common import rename_copy_guard
     rep.rule("C04.R11", "a rename on a path-id provider keeps the renamed object's own peer: SyncState.update grafts the other entry's peer half only onto an entry that has none", 1)
-    rename_copy_guard(ctx, rep, "C04.R11")
+    section(rep, lambda: rename_copy_guard(ctx, rep, "C04.R11"))
     from rules.C02 import C02 as _C02
     _alias(rep, ["C02.R3"], "C04.R12", "a delete is dropped in favour of a pending creation only when the creation is pending on the OTHER side (C02.R3): delete + re-create of "
            "the same name on one side still deletes the old object", 2, lambda: _C02(ctx, rep).r3())
